@@ -363,6 +363,30 @@ class Analysis:
                 res.append((c, v))
         return sorted(res, key=lambda t: (t[1], sorted(t[0])))
 
+    def all_paths_pass_dw(self, g: CFG, fi: FunctionInfo, src: Node, dst: Node, via: Iterable[Node], skip_labels=None) -> bool:
+        """Must-pass-through that knows do-while loops: `flag = True; while flag: …` / `while True: …` run their
+        body at least once, so the loop's exit edge is only reachable after an iteration.  The exit edge of such a
+        loop is ignored when every iteration passes a `via` node (otherwise the plain rule applies)."""
+        via = list(via)
+        dw_edges = []
+        for n in g.nodes:
+            if n.kind == "test" and isinstance(n.info, ast.While) and n.ast is n.info.test:
+                loop = n.info
+                first_true = isinstance(loop.test, ast.Constant) and loop.test.value is True
+                if isinstance(loop.test, ast.Name):
+                    pd = self.preceding_def(loop, loop.test.id)
+                    first_true = isinstance(pd, ast.Constant) and pd.value is True
+                if not first_true:
+                    continue
+                body_entry = [m for (m, l) in n.succ if cfgm.branch_of(l) == "T"]
+                r = g.reach(body_entry, removed=via, skip_labels=skip_labels)
+                skips = any(any(m is n and is_back(l) for (m, l) in x.succ) for x in r)
+                if not skips:
+                    dw_edges.append((n, "F"))
+        if src in via or dst in via:
+            return True
+        return dst not in g.reach([src], removed=via, skip_labels=skip_labels, removed_edges=dw_edges)
+
     def edges_implying(self, g: CFG, fi: FunctionInfo, atom: str, pol: bool, inline_preds=False) -> List[Tuple[Node, str]]:
         """Branch edges (test node, 'T'|'F') whose condition implies atom == pol, whatever the spelling
         (`if not x: …` / `if x: … else …` / `x and y`)."""
